@@ -1,9 +1,13 @@
 package main
 
 import (
+	"bytes"
 	"fmt"
+	"os"
+	"os/exec"
 	"strconv"
 	"strings"
+	"time"
 )
 
 // Rng is splitmix64: every random choice derives from one seed.
@@ -23,9 +27,9 @@ func (r *Rng) Intn(n int) int {
 	}
 	return int(r.U64() % uint64(n))
 }
-func (r *Rng) Bool() bool          { return r.U64()&1 == 1 }
-func (r *Rng) Chance(p int) bool   { return r.Intn(100) < p }
-func (r *Rng) Pick(xs []int) int   { return xs[r.Intn(len(xs))] }
+func (r *Rng) Bool() bool           { return r.U64()&1 == 1 }
+func (r *Rng) Chance(p int) bool    { return r.Intn(100) < p }
+func (r *Rng) Pick(xs []int) int    { return xs[r.Intn(len(xs))] }
 func (r *Rng) Range(lo, hi int) int { return lo + r.Intn(hi-lo+1) }
 func (r *Rng) Bytes(n int) []byte {
 	b := make([]byte, n)
@@ -91,7 +95,7 @@ func cOpt(s *string) string {
 	}
 	return "(Some " + *s + ")"
 }
-func cStr(s string) string { return "\"" + strings.ReplaceAll(s, "\"", "\"\"") + "\"%string" }
+func cStr(s string) string                      { return "\"" + strings.ReplaceAll(s, "\"", "\"\"") + "\"%string" }
 func sprintf(f string, a ...interface{}) string { return fmt.Sprintf(f, a...) }
 
 // genBytes mirrors Base.gen_bytes (LCG, top byte of each state).
@@ -105,3 +109,29 @@ func genBytes(n int, seed uint32) []byte {
 	return b
 }
 func cGB(n int, seed uint32) string { return fmt.Sprintf("(gb %d %d)", n, seed) }
+
+// runSelfChild re-executes this binary with -child; a crash is an observation, never a harness failure.
+func runSelfChild(timeout time.Duration, name string, args ...string) (string, int) {
+	exe, _ := os.Executable()
+	cmd := exec.Command(exe, append([]string{"-child", name}, args...)...)
+	var out bytes.Buffer
+	cmd.Stdout, cmd.Stderr = &out, &out
+	if err := cmd.Start(); err != nil {
+		return err.Error(), -1
+	}
+	done := make(chan error, 1)
+	go func() { done <- cmd.Wait() }()
+	select {
+	case err := <-done:
+		if err == nil {
+			return out.String(), 0
+		}
+		if ee, ok := err.(*exec.ExitError); ok {
+			return out.String(), ee.ExitCode()
+		}
+		return out.String() + err.Error(), -1
+	case <-time.After(timeout):
+		cmd.Process.Kill()
+		return out.String() + "[timeout]", -2
+	}
+}
